@@ -14,7 +14,13 @@ RULE = (
     "events): a job whose outputs were never destroyed runs exactly 1 + its own execute-phase failures times "
     "(never re-executed while its outputs stayed available); a job executed more often had its outputs destroyed by "
     "a recorded loss event and is a provenance ancestor (static DAG) of a failed job; after soft-only plans only the "
-    "failing jobs run again. non-trivial = a fault fired; distinct = loop digests"
+    "failing jobs run again. Replica family (enumerated_cases): pipelines of 2..4 jobs whose later jobs run on a second "
+    "deployment with read-only staging - an upstream output then has a second, related data location on the other "
+    "deployment (a symbolic link between two local deployments; two PRIMARY copies would need a remote site, which "
+    "this harness does not have) - with 1..2 fail-stops that destroy the failing job's directories (the staged copy) "
+    "only, and a seeded latency for every existence probe per site (seam on LocalStreamFlowPath.exists): the producer "
+    "must not run again. non-trivial = a "
+    "fault fired; distinct = loop digests"
 )
 COMPONENTS = _c16.COMPONENTS
 ASSUMPTIONS = ["ancestry is taken from the static job DAG of the generated shape", "whether a run finally completes is decided by C16/C19, not here"]
@@ -56,11 +62,44 @@ def check_executions(sim, res, shape, faults, prop="C18", per_loss_bound=False):
     return own, losses
 
 
+def cases(tier):
+    # replica family: a pipeline whose later steps run on a second deployment with read-only staging, so that an upstream
+    # output has a second, related data location (the staged copy); a fail-stop destroys the staged copy only
+    return [{"family": "replica"} for _ in range(200 if tier == "quick" else 8000)]
+
+
 def run(sim, params):
     t = sim.tape
-    shape = S.gen_shape(t)
-    faults = S.gen_faults(t, shape, max_entries=3, allow_ancestors=True, max_count=2)
-    res = S.execute(sim, shape, faults, max_retries=40, retry_delay=(0, 0, 2)[t.draw(3, "retry_delay")])
+    restore = None
+    if params.get("family") == "replica":
+        shape = {"kind": "pipe", "k": 2 + t.draw(3, "replica.len"), "replica": True}
+        jobs = sorted(S.jobs_of(shape))
+        faults = {}
+        for _ in range(1 + t.draw(2, "replica.nfail")):
+            j = jobs[1 + t.draw(len(jobs) - 1, "replica.job")]
+            faults[(("execute", "transfer")[t.draw(3, "replica.phase") == 2], j)] = [{"kind": "stop", "lose": []}] * (1 + (t.draw(4, "replica.count") == 0))
+        # seam: an existence probe on a location takes (simulated) time; which site answers first is the seed's choice
+        import streamflow.data.remotepath as rp
+
+        orig_exists = rp.LocalStreamFlowPath.exists
+
+        async def exists(self):
+            await sim.io("fs.exists", "site-b" if "wd-site-b" in str(self) else "site-a")
+            return await orig_exists(self)
+
+        rp.LocalStreamFlowPath.exists = exists
+
+        def restore():
+            rp.LocalStreamFlowPath.exists = orig_exists
+        sim.probe("replica_family")
+    else:
+        shape = S.gen_shape(t)
+        faults = S.gen_faults(t, shape, max_entries=3, allow_ancestors=True, max_count=2)
+    try:
+        res = S.execute(sim, shape, faults, max_retries=40, retry_delay=(0, 0, 2)[t.draw(3, "retry_delay")])
+    finally:
+        if restore is not None:
+            restore()
     try:
         own, losses = check_executions(sim, res, shape, faults)
     except Violation as v:
